@@ -344,12 +344,18 @@ def writer_specs():
               ["dense", AE_IFREG, 2000, 1, 9, [], ""],
               ["adj", AE_IFREG, 3000, 1, 10, [[0, 1000], [1000, 1000], [2500, 500]], ""]]
     unsized = [[n, t, s, 0 if t == AE_IFREG else 1, sd, sp, l] for n, t, s, z, sd, sp, l in few]
+    # entries larger than one decode buffer (64 KiB) of the solid/stream decoders: a partial read followed by a
+    # skip must leave the shared decoder exactly where a full read would
+    big = pattern_spec([("g1", 150000), ("g2", 3000), ("g3", 200000), ("g4", 5000)])
     specs = [("ustar", "ustar", [], "", plain), ("pax", "pax", [], "", plain), ("gnutar", "gnutar", [], "", plain),
              ("pax-sparse", "pax", [], "", sparse), ("paxr-sparse-gz", "paxr", ["gzip"], "", sparse),
              ("zip-store", "zip", [], "zip:compression=store", plain), ("zip-deflate", "zip", [], "zip:compression=deflate", plain),
              ("zip-lae-deflate", "zip", [], "zip:compression=deflate", unsized), ("zip-lae-store", "zip", [], "zip:compression=store", unsized),
              ("7zip-solid", "7zip", [], "", few), ("7zip-plain", "7zip", [], "7zip:compression=store", plain),
              ("7zip-lzma2", "7zip", [], "7zip:compression=lzma2", plain),
+             ("7zip-solid-big", "7zip", [], "", big), ("7zip-deflate-big", "7zip", [], "7zip:compression=deflate", big),
+             ("7zip-bzip2-big", "7zip", [], "7zip:compression=bzip2", big), ("pax-gz-big", "pax", ["gzip"], "", big),
+             ("zip-deflate-big", "zip", [], "zip:compression=deflate", big),
              ("cpio-odc", "cpio", [], "", plain), ("cpio-newc-bz2", "newc", ["bzip2"], "", plain),
              ("xar", "xar", [], "", plain), ("warc", "warc", [], "", few), ("ar", "arbsd", [], "", pattern_spec([("a.o", 101), ("bb.o", 0), ("c.o", 3000)])),
              ("iso", "iso9660", [], "", plain), ("mtree", "mtree", [], "", plain), ("tar-zstd", "ustar", ["zstd"], "", few),
